@@ -63,7 +63,8 @@ def run(rep, tier, root=None):
         if new is None:
             rep.violation("S1.one-row-step", tag + ".add_row", "add_row does not rebind the internal screen", m.where())
         else:
-            check_equal(rep, "S1.one-row-step", tag + ".add_row: _scrn = concat([new_row, _scrn], axis=0)[:stencil_length, :nx_size]", new, want,
+            check_equal(rep, "S1.one-row-step", tag + ".add_row: _scrn = concat([new_row, _scrn], axis=0)[:stencil_length, :nx_size]",
+                        _crop_after_prepend(new, row), want,
                         m.where(), what="internal screen after a step")
         ncalls = [c for c in I.call_log if c[0] == m.fq and c[1] == "self.get_new_row"]
         rep.check(len(ncalls) == 1, "S5.one-row-per-step", tag + ".add_row: get_new_row called exactly once",
@@ -77,8 +78,10 @@ def run(rep, tier, root=None):
         ok_shape = len(shp) >= 1 and all(same_value(s[3], (Rat.const(1), nx)) for s in shp)
         if not shp:
             # reshape spelling
-            ok_shape = bool(p2) and isinstance(p2[0][2], Rat) and any(
-                isinstance(a, Fn) and a.name == "reshape" for a in p2[0][2].atoms())
+            from .c04 import _strip_row_shape
+            ok_shape = bool(p2) and isinstance(p2[0][2], Rat) and (any(
+                isinstance(a, Fn) and a.name == "reshape" for a in p2[0][2].atoms()) or
+                _strip_row_shape(p2[0][2], nx) is not p2[0][2])        # x[numpy.newaxis, :] of the row vector
         rep.check(ok_shape, "S1.row-shape", tag + ".get_new_row: row has shape (1, nx_size)",
                   "new row is shaped %s" % [nf(s[3]) for s in shp], m2.where())
         draws = [a for pth in p2 for a in find_atoms(pth[2], lambda a: isinstance(a, Fn) and a.name == "draw")] if p2 else []
@@ -101,13 +104,22 @@ def run(rep, tier, root=None):
                     callers.setdefault(b_.target.name.split(".")[-1], set()).add(cname_)
         row_helpers = set(n_ for n_ in methods if n_.startswith("_") and not n_.startswith("__") and
                           callers.get(n_) and callers[n_] <= {"get_new_row"})
+        # likewise a non-public helper that is only ever called from construction-phase methods is part of construction
+        is_setup = lambda n_: n_ in _all_writers() or n_ == "__init__" or n_.startswith("set_") or n_.startswith("make") or \
+            n_ == "calc_seperations"
+        setup_helpers = set()
+        while True:
+            more = set(n_ for n_ in methods if n_.startswith("_") and not n_.startswith("__") and n_ not in setup_helpers and
+                       n_ not in row_helpers and callers.get(n_) and all(is_setup(c_) or c_ in setup_helpers for c_ in callers[n_]))
+            if not more:
+                break
+            setup_helpers |= more
         for name, meth in sorted(methods.items()):
             if name in row_helpers:
                 continue
             s = fx.summary(meth)
-            if name in ("scrn", "__repr__") or (name not in _all_writers() and name not in ("__init__", "add_row")
-                                                 and not name.startswith("set_") and not name.startswith("make")
-                                                 and name not in ("calc_seperations", "get_new_row")):
+            if name in ("scrn", "__repr__") or (not is_setup(name) and name not in setup_helpers
+                                                 and name not in ("add_row", "get_new_row")):
                 bad = []
                 if s.attr_writes:
                     bad.append("assigns self.%s" % sorted(s.attr_writes))
@@ -202,6 +214,31 @@ def _all_writers():
     for v in WRITERS.values():
         out |= v
     return out
+
+
+def _crop_after_prepend(v, row):
+    """prepending the one new row and keeping the first n rows == keeping the first n - 1 old rows and prepending the row
+    (the row has leading extent 1: S1.row-shape; n = stencil_length >= 1):
+    concat((row, S[:m]), 0)[:, cols]  ->  concat((row, S), 0)[:m + 1, cols]"""
+    from ..interp import _is_slice, _is_full_slice
+    a = v.single_atom() if isinstance(v, Rat) else None
+    if not (isinstance(a, Fn) and a.name == "getitem" and isinstance(a.args[0], Rat) and isinstance(a.args[1], tuple) and len(a.args[1]) == 2
+            and _is_full_slice(a.args[1][0])):
+        return v
+    c = a.args[0].single_atom()
+    if not (isinstance(c, Fn) and c.name == "concat" and len(c.args) == 2 and isinstance(c.args[0], tuple) and len(c.args[0]) == 2
+            and isinstance(c.args[1], int) and c.args[1] == 0 and same_value(c.args[0][0], row) and isinstance(c.args[0][1], Rat)):
+        return v
+    k = c.args[0][1].single_atom()
+    if not (isinstance(k, Fn) and k.name == "getitem" and isinstance(k.args[0], Rat)):
+        return v
+    i = k.args[1]
+    i0 = i[0] if isinstance(i, tuple) and not _is_slice(i) and i else i
+    rest_full = (not isinstance(i, tuple)) or _is_slice(i) or all(_is_full_slice(x) for x in i[1:])
+    if _is_slice(i0) and rest_full and i0[3] is None and isinstance(i0[1], Rat) and i0[1].is_zero() and isinstance(i0[2], Rat):
+        full = Rat.atom(Fn("concat", ((row, k.args[0]), 0)))
+        return Rat.atom(Fn("getitem", (full, (("slice", Rat.const(0), i0[2] + 1, None), a.args[1][1]))))
+    return v
 
 
 def _view(scr, rq):
